@@ -1,12 +1,20 @@
 (** C05 - Decompression keeps the message; output is pointer-free, valid and stable.
 
-    Proved so far: whatever [uncompress_with_previous_offset] returns starts with the input's 12 header
-    bytes (the re-emission only ever appends, and the only in-place writes are the rdlen patches beyond
-    the header).  The full statement (output = canonical pointer-free encoding of the decoded message,
-    record-boundary translation, stability) is decided on every run by exact comparison with an
-    independent canonical encoder at every record boundary of every generated packet. *)
+    Proved (C05_uncompress_is_plain_encoding), for every byte string the parser accepts: [uncompress]
+    returns the 12 header bytes, then the question and every record of the declarative reading of the
+    packet (Spec/RecordSpec.v, Spec/PlainSpec.v: owner names and the names inside NS / CNAME / PTR /
+    MX / SOA data read through the name policy, everything else opaque) re-encoded without any
+    compression pointer: each name label by label, type / class / TTL as read, the data length
+    recomputed, opaque data byte for byte, records in order.  No Panic outcome.  Also: the header is
+    kept (C05_header_kept) and name copies only append (C05_name_copy_appends).
+
+    Not covered by a theorem: that this output is accepted by the parser again, is a fixed point of
+    decompression, and the translation of record boundaries ([uncompress_with_previous_offset] at
+    offsets other than 12); these are decided on every run by exact comparison with an independent
+    canonical encoder at every record boundary of every generated packet. *)
 From DV Require Import Model.Base Model.Parser Model.Header Model.Readers Model.Uncompress
-  Proofs.Hoare Proofs.UncompressFrame.
+  Spec.NameSpec Spec.PacketSpec Spec.RecordSpec Spec.PlainSpec
+  Proofs.Hoare Proofs.UncompressFrame Proofs.QuestionSpec Proofs.UncompressSpec.
 
 Theorem C05_header_kept : forall (p : bytes) (off : nat) (out : bytes) (o : nat),
   uncompress_with_previous_offset p off = Ok (out, o) ->
@@ -18,6 +26,16 @@ Theorem C05_name_copy_appends : forall name0 p off name l f,
   copy_uncompressed_name name0 p off = Ok (name, l, f) -> exists sfx, name = name0 ++ sfx.
 Proof. exact copy_uncompressed_name_appends. Qed.
 Print Assumptions C05_name_copy_appends.
+
+Theorem C05_uncompress_is_plain_encoding : forall p v, bytes_ok p -> parse p = Ok v ->
+  exists qls qt qe e1 e2 lxa lxn lxr,
+    question_of p qls qt CLASS_IN /\ cname_l p 12 qls qe /\
+    records_at p (qe + 4) (map fst lxa) e1 /\ records_at p e1 (map fst lxn) e2 /\
+    records_at p e2 (map fst lxr) (length p) /\
+    Forall (fun rx => rdata_at p (fst rx) (snd rx)) (lxa ++ lxn ++ lxr) /\
+    uncompress p = Ok (firstn 12 p ++ plain_question qls qt CLASS_IN ++ concat (map plain_record (lxa ++ lxn ++ lxr))).
+Proof. exact uncompress_spec. Qed.
+Print Assumptions C05_uncompress_is_plain_encoding.
 
 Example C05_sample :
   uncompress [0;7; 129;128; 0;1; 0;1; 0;0; 0;0; 7;101;120;97;109;112;108;101; 3;99;111;109; 0; 0;1; 0;1;
